@@ -237,7 +237,8 @@ static void op_scan(FILE *out, const char *id, char **a, int n) {
 }
 
 /* CHUNKSEQ <file> <k1,k2c,...>: zck_get_chunk_data (plain number) / zck_get_chunk_comp_data (suffix c)
- * for chunk numbers in this order, each into a buffer of the chunk's declared size (+8).
+ * for chunk numbers in this order, each into a buffer of the chunk's declared size (+8); suffix h = a data request with a
+ * buffer of half that size.
  *  -> OK <ret>:<bytes> ...  */
 static void op_chunkseq(FILE *out, const char *id, char **a, int n) {
     int fd;
@@ -247,11 +248,13 @@ static void op_chunkseq(FILE *out, const char *id, char **a, int n) {
     char *save = NULL;
     for(char *t = strtok_r(a[1], ",", &save); t; t = strtok_r(NULL, ",", &save)) {
         int comp = strchr(t, 'c') != NULL;
+        int half = strchr(t, 'h') != NULL;       /* a data request with a buffer of half the chunk's size */
         size_t k = strtoull(t, NULL, 10);
         zckChunk *c = zck_get_chunk(zck, k);
         if(!c) { fprintf(out, " nochunk"); continue; }
         ssize_t want = comp ? zck_get_chunk_comp_size(c) : zck_get_chunk_size(c);
         if(want < 0 || want > (1 << 26)) { fprintf(out, " toobig"); continue; }
+        if(half && want >= 2) want /= 2;
         unsigned char *buf = calloc(1, want + 8);
         ssize_t r = comp ? zck_get_chunk_comp_data(c, (char *)buf, want) : zck_get_chunk_data(c, (char *)buf, want);
         fprintf(out, " %zd:", r);
